@@ -253,7 +253,10 @@ def evalLeaf (G : Grammar) (e : Expr) (st : St) (cur : Option Err) : Res :=
         | some (s, st1) =>
           match numberLoop G st1 s with
           | none => .abort .hang
-          | some (st2, out) => pyInt out fun v => .ok st2 [.int v] cur
+          | some (st2, out) =>
+            match readNat out with
+            | some v => .ok st2 [.int v] cur
+            | none => .fail (errAt st2 .number) cur    -- `except ValueError: stream.error('<number>')`
       else .fail (errAt st .number) cur
   | .string =>
     match st.rest with
